@@ -185,15 +185,15 @@ def run(ctx):
         files = {"p0/f0.rego": content(0, [1], 0), "p1/f1.rego": content(1, [], 0), "p2/f2.rego": content(2, [0], 0),
                  ".regal/config.yaml": CFG}
         ev = {"kind": "delete", "file": "p1/f1.rego"} if kind == "delete" else {"kind": "rename", "file": "p1/f1.rego", "to": "p1/g1.rego"}
-        cases.append({"id": len(cases), "op": "lsp.history", "files": files, "events": [ev]})
+        cases.append({"id": len(cases), "op": "lsp.history", "files": files, "events": [ev], "_strict": True})
     # directed: a package that another file imports is renamed out of the linted set (into the ignored directory / to a
     # non-.rego name): for the workspace that is a deletion
     for to in ("ignored/f1.rego", "p1/f1.rego.bak"):
         files = {"p0/f0.rego": content(0, [1], 0), "p1/f1.rego": content(1, [], 0), "p2/f2.rego": content(2, [0, 1], 0),
                  ".regal/config.yaml": CFG}
         cases.append({"id": len(cases), "op": "lsp.history", "files": files,
-                      "events": [{"kind": "rename", "file": "p1/f1.rego", "to": to, "pauseMs": 300}]})
-    cases += directed_aggregate_histories(len(cases))
+                      "events": [{"kind": "rename", "file": "p1/f1.rego", "to": to, "pauseMs": 300}], "_strict": True})
+    cases += [dict(x, _strict=True) for x in directed_aggregate_histories(len(cases))]
     # directed bursts: a change immediately followed by the deletion of the same file (the lint job of the change is
     # still in flight when the file disappears) — several repetitions, the schedule is not controlled
     for rep in range(4 if ctx.quick else 16):
@@ -203,7 +203,7 @@ def run(ctx):
         for k in range(1 + rep % 3):
             evs.append({"kind": "change", "file": "p1/f1.rego", "text": content(1, [], 1 + (k % 2)), "pauseMs": 0})
         evs.append({"kind": "delete", "file": "p1/f1.rego", "pauseMs": 0})
-        cases.append({"id": len(cases), "op": "lsp.history", "files": files, "events": evs})
+        cases.append({"id": len(cases), "op": "lsp.history", "files": files, "events": evs, "_strict": True})
     # directed: a file is opened and deleted at once (its parse / lint job is in flight when it disappears), then the
     # whole workspace is linted again (config change): nothing of the deleted file may survive in the cache
     for rep in range(4 if ctx.quick else 16):
@@ -212,13 +212,13 @@ def run(ctx):
         evs = [{"kind": "open" if rep % 2 == 0 else "change", "file": "p2/f2.rego", "text": content(2, [0, 1], 1), "pauseMs": 0},
                {"kind": "delete", "file": "p2/f2.rego", "pauseMs": 0},
                {"kind": "config", "text": CFG2, "pauseMs": 300}]
-        cases.append({"id": len(cases), "op": "lsp.history", "files": files, "events": evs})
+        cases.append({"id": len(cases), "op": "lsp.history", "files": files, "events": evs, "_strict": True})
     # directed: plain starts on a workspace that already has a file in the ignored directory (the workspace is linted
     # with the default configuration before the user's config is loaded)
     for rep in range(6 if ctx.quick else 24):
         files = {"ignored/f0.rego": content(0, [2, 3], 0), "p1/f1.rego": content(1, [], 1), "p2/f2.rego": content(2, [1], 0),
                  ".regal/config.yaml": CFG3 if rep % 2 else CFG}
-        cases.append({"id": len(cases), "op": "lsp.history", "files": files, "events": []})
+        cases.append({"id": len(cases), "op": "lsp.history", "files": files, "events": [], "_strict": True})
     impl = ctx.impl(cases, timeout=3000, procs=6)
     pending = []
     orphaned = []
@@ -289,31 +289,36 @@ def run(ctx):
         linted = [f for f in final if f.endswith(".rego") and not f.startswith("ignored/") and not is_broken(final[f])]
         aggcodes = AGG | {"impossible-not"}
         if known is None:
-            r1 = r2 = 0
+            r1 = 0
             for f, d in diff.items():
-                if f.lstrip("/") not in final and d["published"] and not d["fresh"]:
-                    r2 += 1
-                elif len(linted) <= 1 and not d["missing"] and all(x.split("@")[0] in aggcodes for x in d["extra"]):
+                if len(linted) <= 1 and not d["missing"] and all(x.split("@")[0] in aggcodes for x in d["extra"]):
                     r1 += 1
                 else:
-                    r1 = r2 = -10 ** 6
+                    r1 = -10 ** 6
             if r1 > 0:
                 known = "C15-single-file-workspace-no-aggregates"
-            elif r2 > 0:
-                known = "C15-removed-uri-republished-by-inflight-job"
         for a, ao in (altby.get(c["id"], []) if known is None else []):
             if ao.get("idle") and "published" in ao:
                 skip = {"/" + f for f in a["_broken"]}
                 if all(pub.get(f, []) == ao["published"].get(f, []) for f in (set(pub) | set(ao["published"])) - skip):
                     known = "C15-parse-error-keeps-stale-aggregates"
                     break
-        if known is None:
+        if known is None and c.get("_strict"):
+            # a directed scenario: the races it exercises are repaired in the tree, any divergence is a violation
+            ctx.fail("at quiescence the server's state differs from a fresh lint of the final workspace (directed scenario)",
+                     desc, None, diff)
+        elif known is None:
             unexplained.append((c, desc, diff))
         else:
             ctx.fail("at quiescence the server's state differs from a fresh lint of the final workspace (published diagnostics / cache)",
                  desc, known, diff)
     # finding C15-burst-races, operational classifier: the same history with every pause stretched to >= 700 ms converges
-    unexplained += orphaned
+    for (c, desc, diff) in orphaned:
+        if c.get("_strict"):
+            ctx.fail("at quiescence the server's cache holds a module / aggregate data of a removed file (directed scenario)",
+                     desc, None, diff)
+        else:
+            unexplained.append((c, desc, diff))
     paced = []
     for (c, desc, diff) in unexplained:
         evs = [dict(e, pauseMs=max(e.get("pauseMs") or 0, 700)) for e in c["events"]]
